@@ -59,7 +59,7 @@ def base_streams():
           _m(T + 400, True, 'xdg_toplevel', 5, 'set_title', [['str', '']], conn='261'),
           _m(T + 500, True, 'xdg_toplevel', 5, 'set_app_id', [['str', 'org.example.']], conn='261'),
           _m(T + 600, True, 'xdg_toplevel', 5, 'set_app_id', [['str', '']], conn='261'),
-          _m(T + 700, True, 'xdg_toplevel', 5, 'set_title', [['str', 'a title']], conn='261'),
+          _m(T + 700, True, 'xdg_toplevel', 5, 'set_title', [['str', '{untitled} - main() {} }{ {0} %s %(x)s']], conn='261'),
           _m(T + 800, False, 'xdg_toplevel', 5, 'close', [], conn='261')]
     for m in s5:
         m['queue'] = 'Default Queue'
